@@ -105,6 +105,101 @@ static bool regen_case(const Args &a, uint64_t seed, Case &out) {
     J j; return J::parse_str(buf, j) && case_from_j(j, out);
 }
 
+// ------------------------------------------------------------------ C18: carry-over probes
+// A zygote is forked before the worker has executed any library code; on request it forks a grandchild that runs
+// the probe as the first library call of a pristine process and reports the probe's H_obs.
+struct Zygote { pid_t pid = -1; int to = -1, from = -1; };
+struct ProbeReply { uint64_t hash; uint64_t flag; }; // flag 1 ok, 2 ended abnormally inside the simulator, 3 crashed
+
+static Case gen_probe(const Args &a, uint64_t seed) {
+    GenOpts go; go.tier = a.tier; go.S = 8; go.force_prec = a.force_prec;
+    static const char *pp[] = {"ssv", "strf", "strf", "svx", "mem"};
+    sim::Rng r(sim::derive(seed, 0xC18));
+    std::string prof = pp[r.below(5)];
+    uint64_t ps = (sim::derive(seed, 0xC18C18) % 1000000007ULL) * 8 + 1 + (seed % 7);
+    Case c = gen_case(prof, ps, go);
+    for (auto &op : c.ops) op.dyn_snode = false;     // keep probes clear of the listed dynamic-storage finding
+    return c;
+}
+
+static Zygote start_zygote(const Args &a) {
+    Zygote z; int p1[2], p2[2];
+    if (pipe(p1) != 0 || pipe(p2) != 0) return z;
+    pid_t pid = fork();
+    if (pid == 0) {
+        close(p1[1]); close(p2[0]);
+        signal(SIGPIPE, SIG_IGN);
+        for (;;) {
+            uint64_t seed; ssize_t n = read(p1[0], &seed, sizeof seed);
+            if (n != (ssize_t)sizeof seed) _exit(0);
+            pid_t g = fork();
+            if (g == 0) {
+                child_setup(-1, "/dev/null");
+                runner_install();
+                int wfd = p2[1];
+                sim::on_die = [wfd](int, const std::string &) { ProbeReply r{0, 2}; if (write(wfd, &r, sizeof r) < 0) {} return std::string(); };
+                Case probe = gen_probe(a, seed);
+                RunnerOpts ro; ro.record = false;
+                Outcome o = run_case(probe, ro);
+                ProbeReply r{o.h_obs, 1};
+                if (write(wfd, &r, sizeof r) < 0) {}
+                _exit(0);
+            }
+            int st = 0; waitpid(g, &st, 0);
+            if (!(WIFEXITED(st) && WEXITSTATUS(st) == 0)) { ProbeReply r{0, 3}; if (write(p2[1], &r, sizeof r) < 0) {} }
+        }
+    }
+    close(p1[0]); close(p2[1]);
+    z.pid = pid; z.to = p1[1]; z.from = p2[0];
+    return z;
+}
+static bool zygote_probe(Zygote &z, uint64_t seed, ProbeReply &r) {
+    if (z.pid < 0) return false;
+    if (write(z.to, &seed, sizeof seed) != (ssize_t)sizeof seed) return false;
+    size_t got = 0; char *p = (char *)&r;
+    while (got < sizeof r) { ssize_t n = read(z.from, p + got, sizeof r - got); if (n <= 0) return false; got += (size_t)n; }
+    return true;
+}
+
+// one carry run: prefix history (other sizes / precisions / modes), then the probe; the probe's H_obs must equal the fresh one
+static Outcome run_carry(const Args &a, uint64_t seed, Zygote &z, Case &probe_out) {
+    GenOpts go; go.tier = a.tier; go.S = 8; go.force_prec = -1;
+    sim::Rng r(sim::derive(seed, 0xCA881));
+    static const char *pre[] = {"hist", "hist", "leak", "svx", "strf", "ssv", "mem", "sing", "leak", "hist"};
+    int np = (int)r.range(1, 2);
+    std::string names; long pre_viols = 0;
+    for (int k = 0; k < np; ++k) {
+        std::string prof = pre[r.below(10)];
+        uint64_t ps = (sim::derive(seed, 77 + k) % 1000000007ULL) * 8 + 1 + (uint64_t)r.below(7);
+        Case pc = gen_case(prof, ps, go);
+        if (prof == "sing") for (auto &op : pc.ops) op.kind = op.kind; // may end the process through a listed finding: accepted
+        RunnerOpts ro; ro.record = false;
+        Outcome po = run_case(pc, ro);
+        pre_viols += (long)po.viols.size();
+        names += prof + "(" + prec_name(pc.prec) + ",n=" + std::to_string(pc.M.n) + ") ";
+    }
+    Case probe = gen_probe(a, seed);
+    probe_out = probe;
+    RunnerOpts ro; ro.record = false;
+    Outcome o = run_case(probe, ro);
+    o.probes["carry_prefix_cases"] += np; o.probes["carry_prefix_violations_coobserved"] += pre_viols;
+    if (o.sample.t == J::OBJ) o.sample.set("carry_prefix", names);
+    ProbeReply f1{0, 0};
+    if (!zygote_probe(z, seed, f1)) { Viol v; v.prop = "MACHINERY"; v.oracle = v.sig = "zygote_unreachable"; v.detail = "fresh-process probe could not be obtained"; o.viols.push_back(v); return o; }
+    if (f1.flag != 1) { o.excl["carry_fresh_probe_ended_abnormally"]++; return o; }
+    o.probes["carry_probes_compared"]++;
+    if (f1.hash != o.h_obs) {
+        ProbeReply f2{0, 0};
+        bool ok2 = zygote_probe(z, seed, f2);
+        Viol v; v.op = 0;
+        char hb[160]; snprintf(hb, sizeof hb, "probe H_obs after prefix [%s] = %016llx, fresh process = %016llx", names.c_str(), (unsigned long long)o.h_obs, (unsigned long long)f1.hash);
+        if (!ok2 || f2.flag != 1 || f2.hash != f1.hash) { v.prop = "MACHINERY"; v.oracle = v.sig = "fresh_probe_not_deterministic"; v.detail = hb; }
+        else { v.prop = "C18"; v.oracle = v.sig = "probe_differs_after_prefix"; v.detail = hb; }
+        o.viols.push_back(v);
+    }
+    return o;
+}
+
 // worker: runs seeds base+idx for idx in my chunks, starting at start_idx
 static void pin_to_cpu(int k) {
     // all threads of one simulated process share one core: a baton hand-off is then a plain context switch
@@ -117,6 +212,7 @@ static void pin_to_cpu(int k) {
 static void worker_main(const Args &a, int slot, long start_idx, bool skip_baseline, int wfd) {
     pin_to_cpu(slot);
     mallopt(M_MMAP_THRESHOLD, 1 << 30); mallopt(M_TRIM_THRESHOLD, 1 << 30);
+    Zygote zy; if (a.profile == "carry") zy = start_zygote(a);
     runner_install();
     install_signal_handlers();
     GenOpts go; go.tier = a.tier; go.S = a.S; go.force_prec = a.force_prec;
@@ -128,6 +224,12 @@ static void worker_main(const Args &a, int slot, long start_idx, bool skip_basel
         char hdr[64]; snprintf(hdr, sizeof hdr, "B %llu\n", (unsigned long long)seed);
         write_all(wfd, hdr);
         go.index = idx;
+        if (a.profile == "carry") {
+            Case probe; Outcome o = run_carry(a, seed, zy, probe);
+            probe.seed = seed;
+            write_all(wfd, "R " + result_line(probe, o) + "\n");
+            continue;
+        }
         if (a.profile == "alloc" && alloc_ctx_chunk != chunk) { compute_alloc_ctx(a, go, chunk); alloc_ctx_chunk = chunk; }
         Case c = gen_case(a.profile, seed, go);
         RunnerOpts ro; ro.record = false;
@@ -368,7 +470,25 @@ static int cmd_batch(const Args &a) {
         v.set("prop", vc.prop).set("oracle", vc.oracle).set("sig", vc.sig).set("count", (long long)vc.count).set("first_seed", J((long long)vc.first_seed)).set("detail", vc.detail);
         bool is_known = known.count(vc.prop + ":" + vc.sig) > 0;
         v.set("known", is_known);
-        if (!a.no_min && ++nclass <= 60) {
+        if (!a.no_min && a.profile == "carry" && vc.prop != "C18" && vc.prop != "MACHINERY") {
+            // co-observed classes of prefix cases: they belong to other properties' checks and carry the prefix case's own seed
+            v.set("gate", "n/a");
+        } else if (!a.no_min && a.profile == "carry" && ++nclass <= 60) {
+            // replay = the seed itself (prefix and probe are functions of it); gate: a fresh worker must reproduce the class
+            int pfd[2]; bool hit = false;
+            if (pipe(pfd) == 0) {
+                pid_t pid = fork();
+                if (pid == 0) { close(pfd[0]); child_setup(pfd[1], errdir + "/carrygate.err"); Zygote z = start_zygote(a); runner_install(); Case pr; Outcome o = run_carry(a, vc.first_seed, z, pr); pr.seed = vc.first_seed; write_all(pfd[1], "R " + result_line(pr, o) + "\n"); _exit(0); }
+                close(pfd[1]); std::string buf; char tmp[65536]; ssize_t n; while ((n = read(pfd[0], tmp, sizeof tmp)) > 0) buf.append(tmp, (size_t)n); close(pfd[0]); int st = 0; waitpid(pid, &st, 0);
+                std::istringstream is(buf); std::string line;
+                while (std::getline(is, line)) if (line.size() > 2 && line[0] == 'R') { J res; if (J::parse_str(line.substr(2), res)) if (const J *vv = res.get("viol")) for (auto &x : vv->a) if (x.str("p") == vc.prop && x.str("sig") == vc.sig) hit = true; }
+            }
+            J file = J::obj(); file.set("property", vc.prop).set("sig", vc.sig).set("oracle_detail", vc.detail).set("profile", "carry").set("carry_seed", J((long long)vc.first_seed)).set("tier", a.tier).set("flavour", a.flavour);
+            std::string path = a.replay_dir + "/" + vc.prop + "-carry-" + std::to_string((unsigned long long)vc.first_seed) + ".json";
+            { std::ofstream f(path); f << file.dump() << "\n"; }
+            v.set("replay", path).set("gate", hit ? "ok" : "fail").set("min_summary", "seed-based replay (prefix and probe are regenerated from the seed)");
+            if (!hit) ++gate_fail;
+        } else if (!a.no_min && ++nclass <= 60) {
             Case c;
             if (!regen_case(a, vc.first_seed, c)) { v.set("gate", "fail").set("min_summary", "case could not be regenerated"); ++gate_fail; viols.push(v); continue; }
             MinResult mr = minimise_and_write(c, vc.prop, vc.sig, a.replay_dir, errdir, a.timeout_s, is_known ? 40 : a.max_min_runs, a.flavour);
@@ -409,6 +529,16 @@ static int cmd_one(const Args &a) {
 
 static int cmd_replay(const Args &a) {
     J f; if (!J::parse_str(slurp(a.file), f)) { fprintf(stderr, "cannot parse %s\n", a.file.c_str()); return 2; }
+    if (f.has("carry_seed")) {
+        Args a2 = a; a2.profile = "carry"; a2.tier = (int)f.num("tier");
+        uint64_t seed = (uint64_t)f.num("carry_seed");
+        Zygote z = start_zygote(a2); runner_install(); sim::result_fd = 1;
+        Case pr; Outcome o = run_carry(a2, seed, z, pr); pr.seed = seed;
+        printf("%s\n", result_line(pr, o).c_str());
+        for (auto &v : o.viols) if (v.prop == f.str("property") && v.sig == f.str("sig")) { printf("VIOLATION property=%s replay=%s\n", v.prop.c_str(), a.file.c_str()); return 1; }
+        printf("replay did not reproduce %s/%s\n", f.str("property").c_str(), f.str("sig").c_str());
+        return 0;
+    }
     Case c; const J *cj = f.get("case");
     if (!cj || !case_from_j(*cj, c)) { fprintf(stderr, "no case in %s\n", a.file.c_str()); return 2; }
     std::string prop = f.str("property"), sig = f.str("sig");
